@@ -658,7 +658,7 @@ func sameValue(a, b Value) bool {
 			return false
 		}
 		if x.Sym != nil || y.Sym != nil {
-			return x.Sym == y.Sym || x.Sym.ID == y.Sym.ID
+			return x.Sym != nil && y.Sym != nil && (x.Sym == y.Sym || x.Sym.ID == y.Sym.ID)
 		}
 		if x.Dyn == nil || y.Dyn == nil {
 			return x.Dyn == nil && y.Dyn == nil
